@@ -41,9 +41,13 @@ func vdC15NewSink() (*vdC15Sink, error) {
 }
 
 // next returns the next datagram, or nil after 300 ms of silence
-func (s *vdC15Sink) next() []byte {
+func (s *vdC15Sink) next() []byte { return s.wait(300 * time.Millisecond) }
+
+// wait returns the next datagram, or nil after d of silence (a loaded machine may
+// deliver a loopback datagram late: expected datagrams are waited for generously)
+func (s *vdC15Sink) wait(d time.Duration) []byte {
 	buf := make([]byte, 70000)
-	s.conn.SetReadDeadline(time.Now().Add(300 * time.Millisecond))
+	s.conn.SetReadDeadline(time.Now().Add(d))
 	n, _, err := s.conn.ReadFromUDP(buf)
 	if err != nil {
 		return nil
@@ -82,7 +86,7 @@ func TestVerifDriverC15(t *testing.T) {
 		t.Fatalf("client transport: %v", err)
 	}
 	expectOne := func(what string, want []byte) {
-		got := sink.next()
+		got := sink.wait(5 * time.Second)
 		if got == nil {
 			fail("%s: no datagram arrived (want %d bytes)", what, len(want))
 			return
@@ -182,7 +186,7 @@ func TestVerifDriverC15(t *testing.T) {
 					fail("multi Flush: %v", err)
 				}
 				for j, s := range []*vdC15Sink{sink, sink2} {
-					got := s.next()
+					got := s.wait(5 * time.Second)
 					if !bytes.Equal(got, msg) {
 						fail("multi transport: destination %d received %d bytes for message %d, want %d", j, len(got), i, n)
 					}
